@@ -1,8 +1,40 @@
 """C17 helpers: abstract <-> concrete for stream items, stages, sources; instrumented
 source; running a real Iter pipeline and projecting what the property names."""
-from glom import glom, Iter, Invoke, T, SKIP, STOP, Spec, Check
+from glom import glom, Iter, Invoke, T, S, SKIP, STOP, Spec, Check, Val
 
 SENT = {'SKIP': SKIP, 'STOP': STOP}
+
+
+class Wildcard:
+    "compares equal to anything (mock.ANY-like); truthy; unhashable"
+    def __eq__(self, other):
+        return True
+
+    def __ne__(self, other):
+        return False
+    __hash__ = None
+
+    def __repr__(self):
+        return 'WILD'
+
+
+class Null:
+    "three-valued logic: every comparison with NULL is NULL, and NULL is falsy; unhashable"
+    def __eq__(self, other):
+        return self
+    __ne__ = __eq__
+
+    def __bool__(self):
+        return False
+    __hash__ = None
+
+    def __repr__(self):
+        return 'NULL'
+
+
+WILD, NULL = Wildcard(), Null()
+# the scope every real call is made under (keys spelled _S read it): passed via scope= or bound by S(..)
+SCOPE = {'cut': 2, 'one': 1}
 
 
 # ---- values -------------------------------------------------------------------------------
@@ -12,6 +44,10 @@ def dec(v):
         return v['i']
     if k == 'none':
         return None
+    if k == 'any':
+        return WILD
+    if k == 'null':
+        return NULL
     if k == 'sent':
         return SENT[v['s']]
     if k == 'list':
@@ -24,6 +60,10 @@ def dec(v):
 
 
 def enc(x):
+    if x is WILD:
+        return {'k': 'any'}
+    if x is NULL:
+        return {'k': 'null'}
     if x is SKIP:
         return {'k': 'sent', 's': 'SKIP'}
     if x is STOP:
@@ -78,6 +118,18 @@ def _cnt0(x):
     return x.count(0)
 
 
+def _ltc(x, c):
+    return type(x) is int and x < c
+
+
+def _addc(x, c):
+    return x + c if type(x) is int else x
+
+
+def _modc(x, c):
+    return x % c if type(x) is int else x
+
+
 def _notnone(x):
     return x is not None
 
@@ -98,7 +150,9 @@ FNS = {'T': T, 'inc': _inc, 'skip_odd': _skip_odd, 'stop_at2': _stop_at2, 'dup':
        'item0_T': T[0], 'item0_str': '0', 'item0_spec': Spec(T[0]), 'cnt0_T': T.count(0),
        'inc_tup': (T, _inc), 'inc_spec': Spec(_inc), 'mod2_tup': (T, _mod2),
        'lt2_tup': (T, _lt2), 'lt2_spec': Spec(_lt2), 'lt2_check': Check(validate=_lt2, default=SKIP),
-       'odd_spec': Spec(_odd)}
+       'odd_spec': Spec(_odd),
+       'lt2_S': Invoke(_ltc).specs(T, S.cut), 'inc_S': Invoke(_addc).specs(T, S.one),
+       'mod2_S': Invoke(_modc).specs(T, S.cut)}
 
 
 # ---- specs -----------------------------------------------------------------------------------
@@ -206,14 +260,21 @@ class Source:
         return self.n + (1 if self.ended else 0)
 
 
-def run_iter(spec, srcd, kmax, budget, want_ev=False):
+def call_glom(src, spec, bind_in_spec=False):
+    """every real call runs under SCOPE: handed over with scope= or bound by S(..) earlier in the same spec"""
+    if bind_in_spec:
+        return glom(src, (S(cut=Val(SCOPE['cut']), one=Val(SCOPE['one'])), spec))
+    return glom(src, spec, scope=dict(SCOPE))
+
+
+def run_iter(spec, srcd, kmax, budget, want_ev=False, bind_in_spec=False):
     """glom(source, spec), then up to kmax next() calls.  Returns the observation:
     outs (abstract), ended, pulled[k] = source events after k calls, budget, exc, ev."""
     log = [] if want_ev else None
     src = Source(srcd, budget, log)
     obs = dict(outs=[], ended=False, pulled=[], budget=False, exc='', ev=log if want_ev else [])
     try:
-        it = glom(src, spec)
+        it = call_glom(src, spec, bind_in_spec)
     except BudgetExceeded:
         obs['budget'] = True
         return obs
@@ -245,11 +306,11 @@ def run_iter(spec, srcd, kmax, budget, want_ev=False):
     return obs
 
 
-def run_terminal(spec, srcd, budget):
+def run_terminal(spec, srcd, budget, bind_in_spec=False):
     """glom(source, spec) for a terminal spec (first() / all()): value, source events, exc."""
     src = Source(srcd, budget)
     try:
-        v = glom(src, spec)
+        v = call_glom(src, spec, bind_in_spec)
     except BudgetExceeded:
         return dict(v=None, pulled=src.events, budget=True, exc='')
     except Exception as e:
